@@ -20,18 +20,19 @@ Inductive value :=
 | VNull | VBool (b : bool) | VInt (z : Z) | VFloat (f : float) | VStr (s : string)
 | VArr (items : list Z)        (* an array of ints (enough to exercise the array branches) *)
 | VObj (id : nat)              (* *data.ObjectValue, identified by id; carries property p = id *)
-| VCls (id : nat).             (* *data.ClassValue (instance of a class without __toString) *)
+| VCls (id : nat)              (* *data.ClassValue (instance of a class without __toString) *)
+| VNil.                        (* a nil data.GetValue: what a call of a function without a result evaluates to *)
 
 Definition ty_of (v : value) : ty :=
   match v with
   | VNull => TNull | VBool _ => TBool | VInt _ => TInt | VFloat _ => TFloat | VStr _ => TStr
-  | VArr _ => TArr | VObj _ => TObj | VCls _ => TCls
+  | VArr _ => TArr | VObj _ => TObj | VCls _ => TCls | VNil => TNil
   end.
 
 Definition ty_eqb (a b : ty) : bool :=
   match a, b with
   | TNull, TNull | TBool, TBool | TInt, TInt | TFloat, TFloat | TStr, TStr
-  | TArr, TArr | TObj, TObj | TCls, TCls => true
+  | TArr, TArr | TObj, TObj | TCls, TCls | TNil, TNil => true
   | _, _ => false
   end.
 Definition iface_eqb (a b : iface) : bool :=
@@ -116,6 +117,7 @@ Definition as_bool (v : value) : conv bool :=
   | VStr s => Conv (negb (String.eqb s ""))
   | VArr l => Conv (negb (Nat.eqb (List.length l) 0))
   | VObj _ | VCls _ => Conv true
+  | VNil => NoIface
   end.
 Fixpoint join_ints (l : list Z) : string :=
   match l with
@@ -133,6 +135,7 @@ Definition as_string (lib : golib) (v : value) : string :=
   | VArr l => ("[" ++ join_ints l ++ "]")%string
   | VObj id => obj_str lib false id
   | VCls id => obj_str lib true id
+  | VNil => ""                 (* never called on nil by the code; every use is guarded below *)
   end.
 (* which conversions exist, to be compared with the regenerated interface table *)
 Definition has_conv (lib : golib) (v : value) (i : iface) : bool :=
@@ -140,7 +143,7 @@ Definition has_conv (lib : golib) (v : value) (i : iface) : bool :=
   | AsInt => match as_int v with NoIface => false | _ => true end
   | AsFloat => match as_float lib v with NoIface => false | _ => true end
   | AsBool => match as_bool v with NoIface => false | _ => true end
-  | AsString => true
+  | AsString => match v with VNil => false | _ => true end
   end.
 
 (* node/binary_operand.go: checked conversions; a missing interface or a conversion error is
@@ -153,7 +156,9 @@ Definition opd_float (lib : golib) (v : value) (k : float -> outcome) : outcome 
 Definition is_float (v : value) : bool := match v with VFloat _ => true | _ => false end.
 
 (* ------------------------------------------------------------------ + (binary_add.go) *)
-Definition add (lib : golib) (l r : value) : outcome :=
+Definition denil (v : value) : value := match v with VNil => VNull | _ => v end.
+Definition add (lib : golib) (l0 r0 : value) : outcome :=
+  let l := denil l0 in let r := denil r0 in
   let fast :=
     if is_float l || is_float r then
       match as_float lib l with
@@ -217,6 +222,7 @@ Definition add (lib : golib) (l r : value) : outcome :=
         | VArr _ => Opaque TArr
         | _ => Val (VStr (obj_str lib true id ++ as_string lib r))
         end
+    | VNil => Throw              (* unreachable: nil was replaced by null *)
     end
   end.
 
@@ -343,7 +349,7 @@ Definition eq_body (lib : golib) (ne : bool) (l r : value) : outcome :=
       | ConvErr => Val (VBool ne)       (* a non-numeric string is unequal to a float *)
       | NoIface => Val (VBool ne)
       end
-  | VStr ls => b (String.eqb ls (as_string lib r))
+  | VStr ls => match r with VNil => Val (VBool ne) | _ => b (String.eqb ls (as_string lib r)) end
   | VBool lb =>
       match as_bool r with
       | Conv rb => b (Bool.eqb lb rb)
@@ -356,10 +362,13 @@ Definition eq_body (lib : golib) (ne : bool) (l r : value) : outcome :=
 (* the identity shortcut is skipped for a NaN (f.Value == f.Value is false) *)
 Definition is_nan_value (v : value) : bool :=
   match v with VFloat f => negb (feq f f) | _ => false end.
+(* two nil operands are equal as Go interface values (lv == rv) whether or not they come from one
+   expression *)
+Definition both_nil (l r : value) : bool := match l, r with VNil, VNil => true | _, _ => false end.
 Definition eq (lib : golib) (same : bool) (l r : value) : outcome :=
-  if same && negb (is_nan_value l) then Val (VBool true) else eq_body lib false l r.
+  if (same || both_nil l r) && negb (is_nan_value l) then Val (VBool true) else eq_body lib false l r.
 Definition ne (lib : golib) (same : bool) (l r : value) : outcome :=
-  if same && negb (is_nan_value l) then Val (VBool false) else eq_body lib true l r.
+  if (same || both_nil l r) && negb (is_nan_value l) then Val (VBool false) else eq_body lib true l r.
 
 (* ------------------------------------------------------------------ === !== *)
 Fixpoint zlist_eqb (a b : list Z) : bool :=
@@ -414,7 +423,7 @@ Definition rel (lib : golib) (o : relop) (l r : value) : outcome :=
       | ConvErr => Val (VBool false)    (* a non-numeric string is not ordered with a float *)
       | NoIface => Val (VBool false)
       end
-  | VStr ls => Val (VBool (rel_str o ls (as_string lib r)))
+  | VStr ls => match r with VNil => Val (VBool false) | _ => Val (VBool (rel_str o ls (as_string lib r))) end
   | VNull =>
       match o, r with
       | RLe, VNull | RGe, VNull => Val (VBool true)
@@ -426,59 +435,48 @@ Definition rel (lib : golib) (o : relop) (l r : value) : outcome :=
 
 (* ------------------------------------------------------------------ <=> and data.Compare *)
 Definition sign3 (lt gt : bool) : Z := if lt then -1 else if gt then 1 else 0.
+(* data.Compare is no longer used by the <=> node (it still serves sorting); kept for reference *)
 Definition compare_floats (a b : float) : Z := sign3 (flt a b) (flt b a).
-Definition compare_values (v1 v2 : value) : Z :=
-  match v1, v2 with
-  | VNull, VNull => 0
-  | VNull, _ => -1
-  | _, VNull => 1
-  | VInt a, VInt b => sign3 (a <? b) (a >? b)
-  | VInt a, VFloat b => compare_floats (Z2f a) b
-  | VFloat a, VInt b => compare_floats a (Z2f b)
-  | VFloat a, VFloat b => compare_floats a b
-  | VStr a, VStr b => sign3 (String.ltb a b) (String.ltb b a)
-  | VBool a, VBool b => sign3 (negb a && b) (a && negb b)
-  | _, _ => 0
-  end.
-Definition cmp (l r : value) : outcome :=
+Definition is_nil (v : value) : bool := match v with VNil => true | _ => false end.
+(* BinarySpaceship: int/int fast path; a nil operand gives 0; otherwise -1 when l < r, 1 when
+   l > r (the relational nodes), else 0 *)
+Definition cmp (lib : golib) (l r : value) : outcome :=
   match l, r with
   | VInt a, VInt b => Val (VInt (sign3 (a <? b) (a >? b)))
-  | _, _ => Val (VInt (compare_values l r))
+  | _, _ =>
+      if is_nil l || is_nil r then Val (VInt 0) else
+      match rel lib RLt l r with
+      | Val (VBool true) => Val (VInt (-1))
+      | Val _ =>
+          match rel lib RGt l r with
+          | Val (VBool true) => Val (VInt 1)
+          | Val _ => Val (VInt 0)
+          | o => o
+          end
+      | o => o
+      end
   end.
 
 (* ------------------------------------------------------------------ && || . *)
 (* the right operand is only evaluated when needed; here both operands are values *)
+(* operandTruthy: nil is false, a value without AsBool is true *)
+Definition opd_truthy (v : value) (k : bool -> outcome) : outcome :=
+  match as_bool v with
+  | Conv b => k b
+  | ConvErr => Throw
+  | NoIface => k (negb (is_nil v))
+  end.
 Definition logic_and (l r : value) : outcome :=
-  match as_bool l with
-  | NoIface => Val r
-  | ConvErr => Throw
-  | Conv false => Val (VBool false)
-  | Conv true =>
-      match as_bool r with
-      | Conv rb => Val (VBool rb)
-      | ConvErr => Throw
-      | NoIface => Crash             (* rv.(data.AsBool) unchecked *)
-      end
-  end.
+  opd_truthy l (fun lb => if lb then opd_truthy r (fun rb => Val (VBool rb)) else Val (VBool false)).
 Definition logic_or (l r : value) : outcome :=
-  match as_bool l with
-  | NoIface => Crash                 (* lv.(data.AsBool) unchecked *)
-  | ConvErr => Throw
-  | Conv true => Val (VBool true)
-  | Conv false =>
-      match as_bool r with
-      | Conv rb => Val (VBool rb)
-      | ConvErr => Throw
-      | NoIface => Crash
-      end
-  end.
+  opd_truthy l (fun lb => if lb then Val (VBool true) else opd_truthy r (fun rb => Val (VBool rb))).
 Definition dot_str (lib : golib) (v : value) : string :=
   match v with
   | VStr s => s
   | VInt z => itoa z
   | VFloat f => fmt_float lib f
   | VBool b => if b then "1" else ""
-  | VNull => ""
+  | VNull | VNil => ""
   | _ => as_string lib v
   end.
 Definition dot (lib : golib) (l r : value) : outcome := Val (VStr (dot_str lib l ++ dot_str lib r)).
@@ -495,7 +493,7 @@ Definition binop_eval (lib : golib) (same : bool) (o : binop) (l r : value) : ou
   | OBAnd => band l r | OBOr => bor l r | OBXor => bxor l r | OShl => shl l r | OShr => shr l r
   | OEq => eq lib same l r | ONe => ne lib same l r | OSEq => seq l r | OSNe => sne l r
   | OLt => rel lib RLt l r | OLe => rel lib RLe l r | OGt => rel lib RGt l r | OGe => rel lib RGe l r
-  | OCmp => cmp l r | OLAnd => logic_and l r | OLOr => logic_or l r | ODot => dot lib l r
+  | OCmp => cmp lib l r | OLAnd => logic_and l r | OLOr => logic_or l r | ODot => dot lib l r
   end.
 
 (* ------------------------------------------------------------------ unary - ! ~ (node/expression.go) *)
@@ -515,7 +513,7 @@ Definition unop_eval (lib : golib) (o : unop) (v : value) : outcome :=
       match as_bool v with
       | Conv b => Val (VBool (negb b))
       | ConvErr => Throw
-      | NoIface => NoValue
+      | NoIface => if is_nil v then Val (VBool true) else NoValue
       end
   | UBNot =>
       match as_int v with
@@ -532,7 +530,7 @@ Inductive cres := CB (b : bool) | CThrow | CCrash | CNoBool.
 (* if / else if / while / do-while: `if bv, ok := cond.(data.AsBool); ok { b, err := bv.AsBool() }
    else { b = cond != nil }` *)
 Definition truthy_asbool (v : value) : cres :=
-  match as_bool v with Conv b => CB b | ConvErr => CThrow | NoIface => CB true end.
+  match as_bool v with Conv b => CB b | ConvErr => CThrow | NoIface => CB (negb (is_nil v)) end.
 Definition of_outcome (o : outcome) : cres :=
   match o with Val (VBool b) => CB b | Throw => CThrow | Crash => CCrash | _ => CNoBool end.
 
@@ -556,5 +554,5 @@ Definition ctx_eval (lib : golib) (c : bctx) (v : value) : cres :=
   | CCast =>
       (* std/convert_bool.go: case data.AsBool first; an AsBool error falls to the default true;
          the string branch is unreachable for the modelled types (all implement AsBool) *)
-      match as_bool v with Conv b => CB b | ConvErr => CB true | NoIface => CNoBool end
+      match as_bool v with Conv b => CB b | ConvErr => CB true | NoIface => if is_nil v then CB false else CNoBool end
   end.
